@@ -186,6 +186,8 @@ def covering_paths(g, rng, nrandom):
 def run_harness(ctx, exe, args, tr, meta, timeout=900):
     rc, out, err = ctx.run_cmd([exe] + args, timeout=timeout)
     exs = tracecheck.split_executions(tracecheck.read_ndjson(tr)) if os.path.exists(tr) else []
+    if rc == 3:         # the harness refused its own input (scenario / usage error): a tool failure, never a verdict
+        raise tlc.TLCError("harness error: %s" % err[-500:])
     if rc != 0:
         exs.append([{"e": "Crash", "rc": str(rc), "stderr": err[-300:]}])
     metas = []
